@@ -113,7 +113,7 @@ type CA struct {
 	W *World
 }
 
-func (c CA) GetBestBlock() (*types.Block, error)   { return c.W.BestBlock, nil }
+func (c CA) GetBestBlock() (*types.Block, error)     { return c.W.BestBlock, nil }
 func (c CA) ChainID(no types.BlockNo) *types.ChainID { return c.W.ChainIDAt(no) }
 
 type IS struct {
